@@ -2,9 +2,11 @@ package queue
 
 import (
 	"context"
+	"crypto/tls"
 	"errors"
 	"fmt"
 	"io"
+	"net"
 	"os"
 	"sort"
 	"strconv"
@@ -18,6 +20,7 @@ import (
 	"github.com/emersion/go-smtp"
 	"github.com/foxcpp/maddy/framework/address"
 	"github.com/foxcpp/maddy/framework/buffer"
+	"github.com/foxcpp/maddy/framework/dns"
 	"github.com/foxcpp/maddy/framework/exterrors"
 	"github.com/foxcpp/maddy/framework/log"
 	"github.com/foxcpp/maddy/framework/module"
@@ -224,6 +227,72 @@ var c01Headers = [][][2]string{
 	{{"Subject", "verif"}, {"AUTO-SUBMITTED", "Auto-Generated"}, {"Precedence", "junk"}, {"From", "MAILER-DAEMON@example.org"}},
 }
 
+// c01Conns: the connection the message was submitted over (C=<k><t|n>): what the client called itself
+// in HELO/EHLO (ConnState.Hostname - any string without white space a client can send), the protocol,
+// its address, an authenticated user.  t = the sender is traced (MsgMetadata.DontTraceSender unset:
+// the report names the client in Received-From-MTA), n = it is not.  The ConnState only exists in the
+// memory of the instance that accepted the message (the spool copy has none).  The property does not
+// depend on any of it.  Mirrored by Driver/C01.lean clientTable (names only).
+type c01Conn struct {
+	helo, proto, ip, user string
+}
+
+var c01Long64 = "pc-of-the-accounting-department-second-floor-room-two-hundred-and-seven"
+
+var c01Conns = []c01Conn{
+	{"mail.example.com", "ESMTP", "192.0.2.7", ""},
+	{"laptop..lan", "ESMTPA", "192.0.2.8", "user@example.org"},
+	{c01Long64 + ".corp.example.com", "ESMTPSA", "2001:db8::7", "user"},
+	{strings.Repeat("department.", 24) + "example.com", "ESMTP", "192.0.2.9", ""},
+	{"[192.0.2.7]", "ESMTP", "192.0.2.7", ""},
+	{"[IPv6:2001:db8::7]", "ESMTPS", "2001:db8::7", ""},
+	{"localhost", "LMTP", "127.0.0.1", ""},
+	{"my_host.lan", "ESMTP", "10.0.0.7", ""},
+	{"xn--1.example", "ESMTP", "192.0.2.10", ""},
+	{"пример.example", "UTF8SMTP", "192.0.2.11", ""},
+	{"xn--e1afmkfd.example", "ESMTP", "192.0.2.12", ""},
+	{"MAIL.Example.COM.", "ESMTPS", "192.0.2.13", ""},
+	{".lan", "ESMTP", "192.0.2.14", ""},
+	{"-pc-.example.com", "ESMTP", "192.0.2.15", ""},
+	{strings.Repeat("ю", 60) + ".example", "UTF8SMTPS", "192.0.2.16", ""},
+	{"XN--A.example", "ESMTP", "192.0.2.17", ""},
+	{"..", "ESMTP", "192.0.2.18", ""},
+	{"x", "", "", ""},
+	{"", "ESMTP", "192.0.2.19", ""},
+	{"bücher.example.xn--zz--", "ESMTP", "192.0.2.20", ""},
+}
+
+// c01Hosts: the configured name of the queue's server (Q=<k>: hostname, autogenerated_msg_domain).
+// Reporting-MTA / Message-Id / From of the report are made of them; entry 0 is the default.
+// Mirrored by Driver/C01.lean hostTable (names only).
+var c01Hosts = [][2]string{
+	{"mx.example.org", "example.org"},
+	{"mx..example.org", "example.org"},
+	{c01Long64 + ".example.org", "example.org"},
+	{"mx.example.org.", "example.org."},
+	{"пример.example", "пример.example"},
+	{"xn--e1afmkfd.example", "xn--e1afmkfd.example"},
+	{"MX.Example.ORG", "Example.ORG"},
+	{"localhost", "localhost"},
+	{strings.Repeat("mx.", 90) + "example.org", "example.org"},
+	{".example.org", ".example.org"},
+	{"mx_1.example.org", "example.org"},
+	{strings.Repeat("ю", 60) + ".example", "example.org"},
+}
+
+func c01ConnState(k int) *module.ConnState {
+	c := c01Conns[k]
+	cs := &module.ConnState{Proto: c.proto, Hostname: c.helo, AuthUser: c.user}
+	if c.ip != "" {
+		cs.RemoteAddr = &net.TCPAddr{IP: net.ParseIP(c.ip), Port: 40000 + k}
+		cs.LocalAddr = &net.TCPAddr{IP: net.ParseIP("192.0.2.1"), Port: 25}
+	}
+	if strings.Contains(c.proto, "S") && c.proto != "ESMTP" && c.proto != "UTF8SMTP" {
+		cs.TLS = tls.ConnectionState{HandshakeComplete: true, Version: tls.VersionTLS13, CipherSuite: tls.TLS_AES_128_GCM_SHA256}
+	}
+	return cs
+}
+
 func c01Header(k int) textproto.Header {
 	h := textproto.Header{}
 	fs := c01Headers[k]
@@ -425,10 +494,13 @@ type c01Ext struct {
 	forms    string
 	header   int
 	foreign  map[int][]c01Foreign
+	conn     int // -1: no ConnState (a locally generated message)
+	traced   bool
+	host     int
 }
 
 func c01ParseExt(toks []string, rcpts []int) c01Ext {
-	e := c01Ext{faults: map[int]string{}, restarts: map[int]int{}, utf8: true, sender: 'a', orig: strings.Repeat("-", len(rcpts)), foreign: map[int][]c01Foreign{}}
+	e := c01Ext{faults: map[int]string{}, restarts: map[int]int{}, utf8: true, sender: 'a', orig: strings.Repeat("-", len(rcpts)), foreign: map[int][]c01Foreign{}, conn: -1}
 	for _, tok := range toks {
 		switch {
 		case tok == "R=-":
@@ -468,6 +540,18 @@ func c01ParseExt(toks []string, rcpts []int) c01Ext {
 				panic("C01 run: " + tok)
 			}
 			e.header = k
+		case strings.HasPrefix(tok, "C=") && len(tok) > 3 && strings.Contains("tn", tok[len(tok)-1:]):
+			k, err := strconv.Atoi(tok[2 : len(tok)-1])
+			if err != nil || k < 0 || k >= len(c01Conns) {
+				panic("C01 run: " + tok)
+			}
+			e.conn, e.traced = k, tok[len(tok)-1] == 't'
+		case strings.HasPrefix(tok, "Q=") && len(tok) > 2:
+			k, err := strconv.Atoi(tok[2:])
+			if err != nil || k < 0 || k >= len(c01Hosts) {
+				panic("C01 run: " + tok)
+			}
+			e.host = k
 		case strings.HasPrefix(tok, "F=") && len(tok) > 2:
 			for _, f := range strings.Split(tok[2:], ".") {
 				if len(f) < 3 || !strings.Contains("tpu", f[len(f)-1:]) || !strings.Contains("xck", f[len(f)-2:len(f)-1]) {
@@ -821,8 +905,8 @@ func c01Run(out *vh.Out, op string, seed uint64) {
 		q.maxTries = maxTries
 		q.location = dir
 		q.Target = tgt
-		q.hostname = "mx.example.org"
-		q.autogenMsgDomain = "example.org"
+		q.hostname = c01Hosts[ext.host][0]
+		q.autogenMsgDomain = c01Hosts[ext.host][1]
 		q.Log = log.Logger{Out: log.NopOutput{}}
 		q.dsnPipeline = &c01Bounce{t: tgt}
 		tgt.mu.Lock()
@@ -886,6 +970,10 @@ func c01Run(out *vh.Out, op string, seed uint64) {
 		from = ""
 	}
 	meta := &module.MsgMetadata{ID: id, OriginalFrom: from, DontTraceSender: true, SMTPOpts: smtp.MailOptions{UTF8: ext.utf8}, OriginalRcpts: origRcpts}
+	if ext.conn >= 0 {
+		meta.Conn = c01ConnState(ext.conn)
+		meta.DontTraceSender = !ext.traced
+	}
 	ctx := context.Background()
 	d, err := q.Start(ctx, meta, from)
 	if err != nil {
@@ -1143,6 +1231,31 @@ func c01Run(out *vh.Out, op string, seed uint64) {
 				out.Stat(fmt.Sprintf("run.header.%d.reported", ext.header))
 				break
 			}
+		}
+	}
+	if ext.conn >= 0 || ext.host != 0 {
+		anyReport := false
+		for _, n := range reports {
+			anyReport = anyReport || n > 0
+		}
+		sfx := ""
+		if anyReport {
+			sfx = ".reported"
+		}
+		if ext.conn >= 0 {
+			tr := "untraced"
+			if ext.traced {
+				tr = "traced"
+			}
+			inMem := "in-memory"
+			if ext.restarts[0] > 0 {
+				inMem = "spooled"
+			}
+			out.Stat(fmt.Sprintf("run.client.%d.%s.utf8-%v%s", ext.conn, tr, ext.utf8, sfx))
+			out.Stat("run.client.first-attempt-" + inMem)
+		}
+		if ext.host != 0 {
+			out.Stat(fmt.Sprintf("run.server-name.%d.utf8-%v%s", ext.host, ext.utf8, sfx))
 		}
 	}
 	for k, fs := range ext.foreign {
@@ -1420,6 +1533,150 @@ func TestVerifC01Cls(t *testing.T) {
 	}
 }
 
+// ---- the names of the MTAs in the report (C01 names) ----
+//
+// C01 names <utf8 0|1> <client row|-><t|n> <server row> <hc> <cc>: the REAL Queue.emitDSN for one
+// failed recipient of a message submitted by that client (traced or not) to a server of that name.
+// hc / cc = what dns.SelectIDNA(utf8, ·) makes of the server / client name on this tree (! = error,
+// else the code points): the library primitive's results travel with the op line.  Observation: is
+// a report handed to the bounce pipeline, and its Reporting-MTA / Received-From-MTA fields (white
+// space removed: long values are folded).  Monitor: whatever the names, there is a report.
+type c01Capture struct {
+	blobs [][]byte
+	cur   []byte
+}
+
+func (b *c01Capture) Start(ctx context.Context, msgMeta *module.MsgMetadata, mailFrom string) (module.Delivery, error) {
+	return b, nil
+}
+func (b *c01Capture) AddRcpt(ctx context.Context, to string, _ smtp.RcptOptions) error { return nil }
+func (b *c01Capture) Body(ctx context.Context, header textproto.Header, body buffer.Buffer) error {
+	r, err := body.Open()
+	if err != nil {
+		return err
+	}
+	defer r.Close()
+	b.cur, err = io.ReadAll(r)
+	return err
+}
+func (b *c01Capture) Abort(ctx context.Context) error { return nil }
+func (b *c01Capture) Commit(ctx context.Context) error {
+	b.blobs = append(b.blobs, b.cur)
+	return nil
+}
+
+func c01ConvTok(utf8 bool, name string) string {
+	v, err := dns.SelectIDNA(utf8, name)
+	if err != nil {
+		return "!"
+	}
+	return vh.HexRunes(v)
+}
+
+// c01Field: the value of a field of the report, unfolded, white space removed; "" = absent
+func c01Field(blob []byte, name string) string {
+	lines := strings.Split(string(blob), "\n")
+	for i, l := range lines {
+		if len(l) > len(name) && strings.EqualFold(l[:len(name)+1], name+":") {
+			v := l[len(name)+1:]
+			for _, c := range lines[i+1:] {
+				if !strings.HasPrefix(c, " ") && !strings.HasPrefix(c, "\t") {
+					break
+				}
+				v += c
+			}
+			return strings.Join(strings.Fields(v), "")
+		}
+	}
+	return ""
+}
+
+func c01NamesOp(utf8 bool, client int, traced bool, host int) string {
+	u, ct, cc := "0", "-n", "-"
+	if utf8 {
+		u = "1"
+	}
+	if client >= 0 {
+		ct = fmt.Sprintf("%d%c", client, "nt"[map[bool]int{false: 0, true: 1}[traced]])
+		cc = c01ConvTok(utf8, c01Conns[client].helo)
+	}
+	return fmt.Sprintf("C01 names %s %s %d %s %s", u, ct, host, c01ConvTok(utf8, c01Hosts[host][0]), cc)
+}
+
+func c01Names(out *vh.Out, op string) {
+	toks := strings.Fields(op)
+	if len(toks) != 7 {
+		panic("C01 names: " + op)
+	}
+	utf8 := toks[2] == "1"
+	host, err := strconv.Atoi(toks[4])
+	if err != nil || host < 0 || host >= len(c01Hosts) {
+		panic("C01 names: " + op)
+	}
+	meta := &module.MsgMetadata{ID: "c01names", OriginalFrom: "sender@example.com", DontTraceSender: true, SMTPOpts: smtp.MailOptions{UTF8: utf8}}
+	if ct := toks[3]; ct != "-n" {
+		k, err := strconv.Atoi(ct[:len(ct)-1])
+		if err != nil || k < 0 || k >= len(c01Conns) {
+			panic("C01 names: " + op)
+		}
+		meta.Conn = c01ConnState(k)
+		meta.DontTraceSender = ct[len(ct)-1] != 't'
+	}
+	mod, _ := NewQueue("", "queue", nil, nil)
+	q := mod.(*Queue)
+	q.hostname, q.autogenMsgDomain = c01Hosts[host][0], c01Hosts[host][1]
+	q.Log = log.Logger{Out: log.NopOutput{}}
+	capt := &c01Capture{}
+	q.dsnPipeline = capt
+	rcpt := "gone@example.org"
+	now := time.Now()
+	qm := &QueueMetadata{MsgMeta: meta, From: "sender@example.com", To: []string{rcpt}, FailedRcpts: []string{rcpt},
+		RcptErrs:     map[string]*smtp.SMTPError{rcpt: {Code: 550, EnhancedCode: smtp.EnhancedCode{5, 1, 1}, Message: "no such user"}},
+		FirstAttempt: now, LastAttempt: now}
+	hdr := textproto.Header{}
+	hdr.Add("Subject", "verif")
+	q.emitDSN(qm, hdr, []string{rcpt})
+	obs := "fails"
+	if len(capt.blobs) == 1 {
+		rf := "none"
+		if v := c01Field(capt.blobs[0], "Received-From-MTA"); v != "" {
+			rf = vh.HexRunes(v)
+		}
+		obs = "ok rm=" + vh.HexRunes(c01Field(capt.blobs[0], "Reporting-MTA")) + " rf=" + rf
+	} else {
+		out.Violation("C01/report-cannot-be-generated", op, fmt.Sprintf("%d reports for a failed recipient of a message from client %q (traced %v) on server %q", len(capt.blobs), toks[3], !meta.DontTraceSender, q.hostname))
+	}
+	out.Corr(op, obs)
+	out.Stat("names." + strings.Fields(obs)[0] + ".utf8-" + toks[2])
+	if toks[5] == "!" || toks[6] == "!" {
+		out.Stat("names.inconvertible." + map[bool]string{true: "server", false: "client"}[toks[5] == "!"])
+	}
+}
+
+func TestVerifC01Names(t *testing.T) {
+	out := vh.Open("c01_names")
+	defer out.Close()
+	log.DefaultLogger.Out = log.NopOutput{}
+	if ops := vh.Replay(); ops != nil {
+		for _, op := range ops {
+			if strings.HasPrefix(op, "C01 names ") {
+				c01Names(out, op)
+			}
+		}
+		return
+	}
+	for _, utf8 := range []bool{false, true} {
+		for h := range c01Hosts {
+			c01Names(out, c01NamesOp(utf8, -1, false, h))
+		}
+		for k := range c01Conns {
+			c01Names(out, c01NamesOp(utf8, k, true, 0))
+			c01Names(out, c01NamesOp(utf8, k, false, 0))
+			c01Names(out, c01NamesOp(utf8, k, true, 1+k%(len(c01Hosts)-1)))
+		}
+	}
+}
+
 // c01GenForms draws the X= token: 2-6 forms; the first one is from the cells that matter most (a
 // reply whose basic and enhanced codes disagree in class, or whose enhanced code is odd / absent).
 func c01GenForms(r *vh.Rng, i int) string {
@@ -1502,10 +1759,10 @@ func TestVerifC01(t *testing.T) {
 		// a failure report whose only non-ASCII part is the address the client named (mode 6)
 		mode := i % 8
 		asciiLocal := false // every recipient has an ASCII local part
-		if mode == 6 || (mode != 3 && !spellings && r.Chance(25)) {
+		if mode == 6 || mode == 0 || (mode != 3 && !spellings && r.Chance(25)) {
 			// ASCII recipients (the A-label spellings of the IDN mailboxes included), or at least ASCII local parts
 			pool := []int{3, 4, 9, 10, 15, 16, 21, 22, 1, 13, 18}
-			if mode != 6 && r.Chance(50) {
+			if mode != 6 && mode != 0 && r.Chance(50) {
 				pool = []int{1, 7, 13, 19, 3, 9, 4, 16, 6, 12, 18, 24}
 			}
 			for j := range pool {
@@ -1534,7 +1791,7 @@ func TestVerifC01(t *testing.T) {
 		}
 		kind := r.Pick("a", "p")
 		dsn := "1"
-		if r.Chance(15) && mode != 6 && mode != 1 && mode != 4 {
+		if r.Chance(15) && mode != 6 && mode != 1 && mode != 4 && mode != 0 {
 			dsn = "0"
 		}
 		// every 8th case (mode 2): an address is listed twice (three times) in the envelope, identical
@@ -1663,9 +1920,36 @@ func TestVerifC01(t *testing.T) {
 		} else if r.Chance(30) {
 			headerTok = fmt.Sprintf(" H=%d", r.Intn(len(c01Headers)))
 		}
+		// the connection the message was submitted over and the configured name of the server: every 8th
+		// case (mode 0) walks the table of client names (traced in three of four) - every third of them
+		// the table of server names as well - while somebody fails for good in the FIRST attempt of a
+		// message with a return path, on the instance that accepted it (no restart before: the spool copy
+		// has no ConnState), six of seven messages without SMTPUTF8 (names are converted to A-labels);
+		// 25 % / 15 % of the other cases get a random client / server name
+		connTok := ""
+		if mode == 0 {
+			connTok = fmt.Sprintf(" C=%d%c", (i/8)%len(c01Conns), "tttn"[(i/8/len(c01Conns)+i/8)%4])
+			if (i/8)%3 == 0 {
+				connTok += fmt.Sprintf(" Q=%d", (i/24)%len(c01Hosts))
+			}
+			f := strings.Split(plans[0], "/")
+			if !strings.Contains(f[1], "p") || f[0] != "o" {
+				rcs := []byte(f[1])
+				rcs[r.Intn(nr)] = 'p'
+				f[0], f[1] = "o", string(rcs)
+				plans[0] = strings.Join(f, "/")
+			}
+		} else {
+			if r.Chance(25) {
+				connTok = fmt.Sprintf(" C=%d%c", r.Intn(len(c01Conns)), "ttn"[r.Intn(3)])
+			}
+			if r.Chance(15) {
+				connTok += fmt.Sprintf(" Q=%d", r.Intn(len(c01Hosts)))
+			}
+		}
 		// restarts
 		ext := ""
-		if mode == 3 || r.Chance(20) {
+		if mode == 3 || (mode != 0 && r.Chance(20)) {
 			var ks []string
 			for k := 0; k < maxTries; k++ {
 				pr := 35
@@ -1696,7 +1980,7 @@ func TestVerifC01(t *testing.T) {
 		// envelope: SMTPUTF8 or not, shape of the return path, addresses the client named
 		if !dupMode && (mode == 6 || asciiLocal || r.Chance(20)) {
 			utf8 := "1"
-			if asciiLocal && mode != 6 && r.Chance(50) {
+			if asciiLocal && mode != 6 && r.Chance(50) || mode == 0 && (i/8)%7 != 6 {
 				utf8 = "0"
 			}
 			shapes := "aanimj"
@@ -1788,11 +2072,11 @@ func TestVerifC01(t *testing.T) {
 			}
 			ext += " X=" + c01GenForms(r, i/8)
 		}
-		if foreignTok+headerTok != "" {
+		if foreignTok+headerTok+connTok != "" {
 			if ext == "" {
 				ext = " R=-"
 			}
-			ext += headerTok + foreignTok
+			ext += headerTok + foreignTok + connTok
 		}
 		op := fmt.Sprintf("C01 run %d %s %s %s %s%s", maxTries, kind, dsn, strings.Join(rs, ","), strings.Join(plans, ";"), ext)
 		jobs <- job{op, r.Next()}
